@@ -40,6 +40,13 @@ def families(rng):
             '  try { try { raise Error("x"); } catch e: v { print("no"); } } catch e2: Error { print("c6"); }\n'
             '  try { print(<- v); } catch e: Error { print("c7"); }\n'
             '  return keep;\n}\nt();\nprint("end");\n' % v)
+    # ---- launch of callees that complete inline (natives, bound natives, classes with and without init) -----------
+    for callee in ['l.len()', 'l.push(1)', 'print("p")', 'Plain()', 'WithInit(1)', 'str(1)' if False else '"s".len()',
+                   'l.iter().each(|x| x)', 'Error("e")', 'chan(1)' if False else '[3, 1].sort(|a, b| a - b)', 'm.len()',
+                   'Plain.name()', 'f.call(1)', 'f.name()']:
+        add('launch-inline ' + callee, 'class Plain {}\nclass WithInit { init(a) { self.a = a; } }\nfn f(a) { return a; }\n'
+            'let l = [1];\nlet m = {"k": 1};\nfn t() {\n  let x = 1;\n  for i in 300.times() { launch %s; }\n  let y = 2;\n  return x + y;\n}\n'
+            'try { print(t()); } catch e: Error { print("c"); }\nprint("end");\n' % callee)
     # ---- built-in subclassing (D9) and constructing builtins -----------------
     for b in ['List', 'String', 'Map', 'Tuple', 'Number', 'Bool', 'Nil', 'Iter', 'Fun', 'Closure', 'Method', 'Native',
               'Class', 'Channel', 'Module', 'Object', 'Error']:
